@@ -78,6 +78,18 @@ def check_bytes(b):
     except Exception as e:  # noqa
         return [('bnd:C15.decode.same_as_cpython', 'raises:' + type(e).__name__,
                  'CPython decodes with %s, parso raises %s: %s' % (enc, type(e).__name__, e))]
+    if not (b.startswith(b'\xef\xbb\xbf') and got == '\ufeff' + exp) and got == exp:
+        # the same bytes through the public entry point: the tree's code is the decoded text (a decoding shortcut in
+        # Grammar.parse would not show in python_bytes_to_unicode)
+        try:
+            import parso
+            code = parso.parse(b).get_code()
+        except Exception as e:  # noqa
+            return [('bnd:C15.decode.same_as_cpython', 'parse-raises:' + type(e).__name__,
+                     'python_bytes_to_unicode decodes like CPython (%s) but parse(bytes) raises %s: %s' % (enc, type(e).__name__, e))]
+        if code != exp:
+            return [('bnd:C15.decode.same_as_cpython', 'parse-differs',
+                     'CPython (%s) %r, python_bytes_to_unicode agrees, parse(bytes).get_code() is %r' % (enc, exp[:40], code[:40]))]
     if b.startswith(b'\xef\xbb\xbf') and got == '\ufeff' + exp:
         return []          # parso keeps the BOM character (stated in the property)
     if got != exp:
@@ -126,7 +138,8 @@ def codec_name_sources():
         for suf in ('-unix', '-dos', '-mac', '-x', 'x', '-', '-unix-dos'):
             names.add(base + suf)
     names |= {n.upper() for n in list(names) if len(n) < 14}
-    pays = [b'\xa4\xa6\xbc', b'\xe9', b'\xc3\xa9', b'\xff', b'e']
+    # (the last two are pure ASCII that utf-7 / the escape codecs transform: a declared codec matters for ASCII-only files too)
+    pays = [b'\xa4\xa6\xbc', b'\xe9', b'\xc3\xa9', b'\xff', b'e', b'+AOk-', b'\\u20ac \\xe9']
     for n in sorted(names):
         try:
             nb = n.encode('ascii')
